@@ -57,6 +57,9 @@ def check(rep, tier, rng):
         items = t3.graph_spec(nodes, rng)
         order = items if rng.chance(1, 2) else rng.shuffle(items)
         cases.append({"items": items, "text": specgen.render(order), "kind": "chain>=12"})
+    for ctag, items in specgen.names_catalog():
+        cases.append({"items": items, "text": specgen.render(items), "kind": "names"})
+        cases.append({"items": items, "text": specgen.render(rng.shuffle(items)), "kind": "names"})
     res = t3.run_texts([c["text"] for c in cases])
     tie_breaks, nviol, distinct, kinds = [], 0, set(), {}
     for c, (impl, model) in zip(cases, res):
